@@ -488,7 +488,8 @@ class Func:
         if m and len(args) == 2:
             return ('bin', m.group(1), args[0], args[1], 'f64')
         site = None
-        if is_next_call(path) or path.startswith(IMPURE_PREFIXES):
+        if is_next_call(path) or path.startswith(IMPURE_PREFIXES) or path in self.pdb.impure_fns() \
+                or fn.decl in self.pdb.impure_fns():
             site = (bb,)
         elif t.dest.is_local() and is_owned_heap_ty(self.body.local_ty(t.dest.local)):
             site = (bb,)
